@@ -7,16 +7,6 @@ Import ListNotations.
 Open Scope N_scope.
 
 (** ---- bytes ---- *)
-Lemma bytes_eqb_eq : forall a b, bytes_eqb a b = true <-> a = b.
-Proof.
-  induction a as [|x a IH]; destruct b as [|y b]; cbn [bytes_eqb]; split; intro H;
-    try reflexivity; try discriminate.
-  - apply andb_true_iff in H. destruct H as [H1 H2].
-    apply N.eqb_eq in H1. apply IH in H2. subst. reflexivity.
-  - inversion H; subst. apply andb_true_iff. split.
-    + apply N.eqb_refl.
-    + apply IH. reflexivity.
-Qed.
 
 Lemma slice_eq : forall bytes off len, slice bytes off len = firstn len (skipn off bytes).
 Proof. destruct bytes; reflexivity. Qed.
@@ -276,23 +266,7 @@ Proof.
     + right. right. exact H.
 Qed.
 
-Lemma index_get_some : forall s k l, index_get s k = Some l -> In (k, l) (s_index s) /\ loc_valid s l = true.
-Proof.
-  unfold index_get. intros s k l H. apply newest_in in H. destruct H as [H|H]; [discriminate|].
-  apply in_map_iff in H. destruct H as [[k' l'] [E H]]. cbn [snd] in E. subst l'.
-  apply filter_In in H. destruct H as [H1 H2]. cbn [fst snd] in H2.
-  apply andb_true_iff in H2. destruct H2 as [H2 H3].
-  apply key_eqb_eq in H2. subst. split; assumption.
-Qed.
 
-Lemma least_specific_some : forall s ks k l, least_specific s ks = Some (k, l) -> In k ks /\ index_get s k = Some l.
-Proof.
-  induction ks as [|k0 t IH]; intros k l H; cbn [least_specific] in H.
-  - discriminate.
-  - destruct (index_get s k0) as [l0|] eqn:E.
-    + inversion H; subst. split; [left; reflexivity|exact E].
-    + destruct (IH _ _ H) as [H1 H2]. split; [right; exact H1|exact H2].
-Qed.
 
 Lemma loc_valid_bounds : forall s l, loc_valid s l = true -> s_tbr s <= l_abs l /\ l_abs l < abs_end s.
 Proof.
@@ -300,14 +274,6 @@ Proof.
   apply N.leb_le in H1. apply N.ltb_lt in H2. split; assumption.
 Qed.
 
-Lemma valid_block_of_loc : forall c s l, AInv c s -> loc_valid s l = true -> exists b, block_of_loc s l = Some b.
-Proof.
-  intros c s l A H. apply loc_valid_bounds in H. destruct H as [H1 H2].
-  destruct (a_rel _ _ A) as [R1 R2]. unfold abs_end in *. unfold block_of_loc.
-  destruct (nth_error (s_blocks s) (N.to_nat (l_abs l - s_released s))) as [b|] eqn:E.
-  - exists b. reflexivity.
-  - apply nth_error_None in E. lia.
-Qed.
 
 (** the model's block lookup by location agrees with [uid_at] *)
 Lemma block_of_loc_uid_at : forall s l b,
